@@ -89,7 +89,7 @@ def write_cfg(path, spec="Spec", constants=None, invariants=(), properties=(), d
         f.write("\n".join(out) + "\n")
 
 
-_PAYLOAD = re.compile(r'^"((?:CASE|TRACE|OBS|REJ|ACC|WIT) .*)"$')      # PrintT payload lines of the specs
+_PAYLOAD = re.compile(r'^"((?:CASE|TRACE|OBS|REJ|ACC|WIT|DRIFT) .*)"$')      # PrintT payload lines of the specs
 
 
 _spec_copy = None
